@@ -84,13 +84,20 @@ def _labels(ctx, n, nblocks):
 
 
 def _with_block_split(labels, fn):
-    stub = _Labels(labels)
-    old = vms.block_split
-    vms.block_split = stub
+    "plant the labels in every verde module that binds the name block_split"
+    import sys
+
+    stub = _Labels(labels) if not isinstance(labels, _Labels) else labels
+    saved = []
+    for name, mod in list(sys.modules.items()):
+        if name.startswith("verde") and mod is not None and "block_split" in getattr(mod, "__dict__", {}):
+            saved.append((mod, mod.__dict__["block_split"]))
+            mod.block_split = stub
     try:
         return fn(), stub
     finally:
-        vms.block_split = old
+        for mod, oldf in saved:
+            mod.block_split = oldf
 
 
 def _common_split_claims(ctx, splits, labels, n):
@@ -149,6 +156,31 @@ def h_blockkfold(ctx):
             ctx.claim("balanced folds are the partition_by_sum groups of consecutive blocks", [sorted(t) for t in tests] == expect)
         except ValueError:
             ctx.claim("falling back to equal block counts warns", bool(warned))
+    # the same cross-validator object reused on another point set (same size and extent, other blocks)
+    other = labels[::-1]
+    if sorted(set(other)) == occupied and n_splits <= len(occupied):
+        cv = vd.BlockKFold(**kw)
+        planted = _Labels(labels)
+
+        def twice():
+            with warnings.catch_warnings():
+                warnings.simplefilter("ignore")
+                list(cv.split(X))
+                planted.labels = other
+                return list(cv.split(X))
+
+        reused, _ = _with_block_split(planted, twice)
+
+        def fresh():
+            with warnings.catch_warnings():
+                warnings.simplefilter("ignore")
+                return list(vd.BlockKFold(**kw).split(X))
+
+        ref, _ = _with_block_split(other, fresh)
+        if not cfg["shuffle"] or cfg.get("seed") is not None:
+            ctx.claim("a cross-validator that already split other data behaves like a fresh one", And(len(reused) == len(ref), all(list(a[0]) == list(b[0]) and list(a[1]) == list(b[1]) for a, b in zip(reused, ref))))
+        for train, test in reused:
+            ctx.claim("reused cross-validator: no block on both sides", len(set(np.asarray(other)[train]) & set(np.asarray(other)[test])) == 0)
     # reproducibility for a fixed random_state
     (splits2, _w), _ = _with_block_split(labels, run)
     same = len(splits2) == len(splits) and all(list(a[0]) == list(b[0]) and list(a[1]) == list(b[1]) for a, b in zip(splits, splits2))
